@@ -42,10 +42,9 @@ Definition brace_inner (t : ustr) : option ustr :=
 Definition find_writer (ws : list owriter) (n : ustr) : option owriter :=
   find (fun w => beq (ow_name w) n) ws.
 
-(* does this writer put the record out?  FileLogWriter checks its max level, and so does a well-behaved custom
-   writer (the recording writer of the harness); SyslogWriter::write does not look at its max_log_level *)
-Definition emits (w : owriter) (lvl : level) : bool :=
-  match ow_kind w with WSyslog => true | _ => Nat.leb lvl (ow_max w) end.
+(* does this writer put the record out?  FileLogWriter and SyslogWriter check their max level in write(), and so does a
+   well-behaved custom writer (the recording writer of the harness) *)
+Definition emits (w : owriter) (lvl : level) : bool := Nat.leb lvl (ow_max w).
 
 Definition dup_match (d : nat) (lvl : level) : bool :=
   match d with
